@@ -393,6 +393,9 @@ func (w *weaver) stmt(s ast.Stmt, fn string, rt bool) {
 		w.exprsIn(x.Assign, fn, rt)
 		w.clauses(x.Body, fn, rt)
 	case *ast.SelectStmt:
+		if w.recvSelect(x, fn, rt) {
+			return
+		}
 		w.clauses(x.Body, fn, rt)
 	case *ast.CaseClause:
 		for _, e := range x.List {
@@ -465,6 +468,52 @@ func (w *weaver) exprsIn(s ast.Node, fn string, rt bool) {
 		}
 		return true
 	})
+}
+
+// recvSelect applies W8 to a native select statement whose clauses are all plain
+// receives (`case <-ch:`), without default: it becomes
+//
+//	switch verifRecvSelect(site, ch1, ch2) { case 0: ... case 1: ... }
+//
+// so that, like for reflect.Select (W7), the choice among several ready cases is
+// the simulator's and not the Go runtime's (the entry points select on ctx.Done()
+// and on the end of the evaluation; the debugger on the resume channel and on
+// its context).
+func (w *weaver) recvSelect(x *ast.SelectStmt, fn string, rt bool) bool {
+	var chans []ast.Expr
+	for _, c := range x.Body.List {
+		cc, ok := c.(*ast.CommClause)
+		if !ok || cc.Comm == nil {
+			return false // default clause
+		}
+		es, ok := cc.Comm.(*ast.ExprStmt)
+		if !ok {
+			return false
+		}
+		u, ok := es.X.(*ast.UnaryExpr)
+		if !ok || u.Op != token.ARROW {
+			return false
+		}
+		chans = append(chans, u.X)
+	}
+	if len(chans) < 2 {
+		return false
+	}
+	site := addSite("select", w.name, w.line(x.Pos()), fn)
+	var args []string
+	for _, ch := range chans {
+		args = append(args, string(w.src[w.off(ch.Pos()):w.off(ch.End())]))
+	}
+	w.edits = append(w.edits, edit{w.off(x.Pos()), w.off(x.Body.Lbrace), fmt.Sprintf("switch verifRecvSelect(%d, %s) ", site, strings.Join(args, ", ")), 0})
+	for i, c := range x.Body.List {
+		cc := c.(*ast.CommClause)
+		w.edits = append(w.edits, edit{w.off(cc.Pos()), w.off(cc.Colon), fmt.Sprintf("case %d", i), 0})
+		w.stmts(cc.Body, fn, rt)
+	}
+	// (a select is a terminating statement when its clauses are; a switch needs a
+	// default clause for that)
+	w.insert(x.Body.Rbrace, "default: panic(\"verif: verifRecvSelect chose no case\") ", 9)
+	return true
 }
 
 // selectCall applies W7: reflect.Select(x) -> verifSelect(site, x), so that the
@@ -576,6 +625,16 @@ func verifSelect(site int, cases []reflect.SelectCase) (int, reflect.Value, bool
 		VerifSelected(site, cases, c)
 	}
 	return c, v, ok
+}
+
+// verifRecvSelect is a native select over plain receives (W8).
+func verifRecvSelect(site int, chans ...interface{}) int {
+	cases := make([]reflect.SelectCase, len(chans))
+	for i, c := range chans {
+		cases[i] = reflect.SelectCase{Dir: reflect.SelectRecv, Chan: reflect.ValueOf(c)}
+	}
+	chosen, _, _ := verifSelect(site, cases)
+	return chosen
 }
 
 func verifStep(site int) {
